@@ -3,9 +3,9 @@
 id=$1; slug=$2; prop=$3; needs=$4; ran=$5; caught=$6
 d=/verif/seeded/$id-$slug
 mkdir -p $d
-cp /tmp/seed/$id.out/patch.diff $d/patch.diff
-rm -rf $d/demo; cp -r /tmp/seed/$id.out/demo $d/demo 2>/dev/null
-cp /tmp/seed/$id.out/README.md $d/AGENT_README.md
+cp /tmp/seed/$id.${SEED_SUFFIX:-out}/patch.diff $d/patch.diff
+rm -rf $d/demo; cp -r /tmp/seed/$id.${SEED_SUFFIX:-out}/demo $d/demo 2>/dev/null
+cp /tmp/seed/$id.${SEED_SUFFIX:-out}/README.md $d/AGENT_README.md
 python3 - "$d" "$prop" "$needs" "$ran" "$caught" <<'PY'
 import json,sys
 d,prop,needs,ran,caught=sys.argv[1:6]
